@@ -178,6 +178,18 @@ func (e *Engine) registerIntrinsics() {
 		return sameRef(a.v, b.v)
 	})
 
+	e.reg("package-operator.run/internal/verifk8s.TypeName", func(fr *frame, args []value) value {
+		it := args[0].(iface)
+		if it.t == nil {
+			return "<nil>"
+		}
+		s := strings.TrimLeft(it.t.String(), "*")
+		if k := strings.LastIndex(s, "."); k >= 0 {
+			s = s[k+1:]
+		}
+		return s
+	})
+
 	// ---- fmt / errors
 	e.reg("fmt.Errorf", intrErrorf)
 	e.reg("fmt.Sprintf", func(fr *frame, args []value) value {
